@@ -182,10 +182,13 @@ pub fn judge(ctx: &mut Ctx, cfg: &Cfg, m: &MSym, rng: &mut Rng, corpus: bool, re
     // covers with <= 3 sheets (corpus symbols with <= 3 chambers: <= 6 sheets): never {yes, no} across (S, C)
     if with_covers && deep {
         let max_sheets = if !corpus {
-            3
+            // symbols reported euclidean with at most 3 chambers: up to 24 chambers / 8 sheets, like the corpus
+            if class == Class::Yes && m.n <= 3 { (24 / m.n.max(1)).clamp(3, 8) } else { 3 }
         } else {
             // corpus: chambers of the cover bounded by 18 (thorough 32), 2..=6 (thorough 8) sheets
-            let (budget, cap) = (cfg.tier.pick(18, 32), cfg.tier.pick(6, 8));
+            // (24 chambers / 8 sheets also in the quick tier: the smallest branch-free covers whose orientation cover
+            // is a flat manifold other than the 3-torus have 24 chambers, 8 sheets over a 3-chamber symbol)
+            let (budget, cap) = (cfg.tier.pick(24, 32), 8);
             (budget / m.n.max(1)).clamp(2, cap)
         };
         if let Ok(cs) = observe(|| rust_dsymbols::covers::covers(&to_partial_dsym(m), max_sheets).iter().map(|c| from_dsym(c)).collect::<Vec<_>>()) {
@@ -221,6 +224,14 @@ pub fn judge(ctx: &mut Ctx, cfg: &Cfg, m: &MSym, rng: &mut Rng, corpus: bool, re
 
 pub fn run(cfg: &Cfg) -> Report {
     let mut report = Report::new(cfg);
+    // out-of-domain calls between judged cases (a 2D symbol, a 1D symbol, a 3D symbol with a 5-fold axis): whatever
+    // they answer - a panic is fine - the verdicts on valid symbols afterwards must be unaffected
+    crate::monitor::set_poison(|k| {
+        let t = ["<1.1:1:1,1,1:4,4>", "<1.1:1 1:1,1:4>", "<1.1:1 3:1,1,1,1:5,3,5>", "<1.1:2 3:2,1 2,1 2,2:3 3,3 4,4 4>"][(k % 4) as usize];
+        if let Ok(ds) = t.parse::<rust_dsymbols::dsyms::PartialDSym>() {
+            let _ = is_euclidean(&ds);
+        }
+    });
     let seed = cfg.seed;
     let mut uni = three_d::universe(cfg.tier.pick(3, 4));
     uni.extend(three_d::sampled_larger(seed, &[5, 6], cfg.tier.pick(1, 3), cfg.tier.pick(1500, 30000)));
